@@ -400,3 +400,45 @@ Proof.
       * intros [|i] Hi; [exists st; split; [reflexivity|exact Er]|].
         destruct (H2 i ltac:(lia)) as (si & A & B). exists si. rewrite steps_S, Ev. split; assumption.
 Qed.
+
+(* ------------------------------------------------------------------ *)
+(** * Breakpoints in the reference (C11) *)
+
+(** Reaching an address that carries a breakpoint pauses before the instruction there executes,
+    whatever was running ... *)
+Lemma ref_at_breakpoint feat bps fuel m st k : bp_get bps (s_pc st) <> None ->
+  ref_at feat bps (S fuel) m st k = PEPaused st k.
+Proof.
+  intros H. cbn [ref_at]. unfold pause_cond. destruct (bp_get bps (s_pc st)); [reflexivity|congruence].
+Qed.
+
+(** ... an address without one (not HALT, in user space) never pauses `continue` ... *)
+Lemma ref_at_no_breakpoint feat bps fuel st k :
+  bp_get bps (s_pc st) = None -> at_halt st = false -> oob st = false ->
+  ref_at feat bps (S fuel) MCont st k =
+  match vm_step feat st with
+  | Running st' => ref_at feat bps fuel MCont st' (S k)
+  | Exited c s => PEStopped 1 c s (S k)
+  | Panicked s => PEStopped 2 0 s (S k)
+  | Diverged => PEStopped 3 0 st (S k)
+  end.
+Proof.
+  intros Hb Hh Ho. cbn [ref_at mode_next]. unfold pause_cond. rewrite Hb, Hh, Ho. reflexivity.
+Qed.
+
+(** ... and resuming from a breakpoint executes the marked instruction (once: the count starts at
+    1 and the next arrival at the address is an ordinary [ref_at] state, where it fires again). *)
+Lemma ref_cmd_leaves_breakpoint feat bps fuel c st m :
+  mode_of_cmd feat c st = Some m -> at_halt st = false -> oob st = false ->
+  exists m', mode_next m st = Some m' /\
+  ref_cmd feat bps fuel c st =
+  match vm_step feat st with
+  | Running st' => ref_at feat bps fuel m' st' 1
+  | Exited cd s => PEStopped 1 cd s 1
+  | Panicked s => PEStopped 2 0 s 1
+  | Diverged => PEStopped 3 0 st 1
+  end.
+Proof.
+  intros Hm Hh Ho. destruct (armed_mode_next _ _ _ _ Hm) as (m' & Hn). exists m'. split; [exact Hn|].
+  unfold ref_cmd. rewrite Hm, Hh, Ho, Hn. reflexivity.
+Qed.
